@@ -637,7 +637,12 @@ func (db *DB) rollbackJournal(ctx context.Context) error {
 	defer func() { _ = journalFile.Close() }()
 
 	dbFile, err := db.os.OpenFile("ROLLBACKJOURNALDB", db.DatabasePath(), os.O_RDWR, 0o666)
-	if err != nil {
+	if os.IsNotExist(err) {
+		// The database file is gone (a drop was interrupted after removing it):
+		// the leftover journal has nothing to restore.
+		_ = journalFile.Close()
+		return db.os.Remove("ROLLBACKJOURNAL", db.JournalPath())
+	} else if err != nil {
 		return err
 	}
 	defer func() { _ = dbFile.Close() }()
